@@ -1,6 +1,11 @@
 package vaxis
 
-import "git.sr.ht/~rockorager/vaxis/ansi"
+import (
+	"fmt"
+	"strings"
+
+	"git.sr.ht/~rockorager/vaxis/ansi"
+)
 
 // Helpers exported to harnesses living in other packages (overlay only).
 
@@ -34,3 +39,91 @@ func VerifExpectStyle(vx *Vaxis, st Style) Style { return verifExpectStyle(vx, s
 
 // VerifSetSixelCap sets the one capability the embedded terminal advertises (DA1 4).
 func VerifSetSixelCap(vx *Vaxis) { vx.caps.sixels = true }
+
+// VerifStartupQueries returns the queries sendQueries writes at start-up, in its order (the
+// explicit-width probe as home + probe + cursor position request).
+func VerifStartupQueries() []string {
+	return []string{
+		userCursorStyle, decrqm(synchronizedUpdate), decrqm(unicodeCore), decrqm(colorThemeUpdates),
+		decset(inBandResize), xtversion, kittyKBQuery, kittyGquery, xtsmSixelGeom, textAreaSize,
+		"\x1b[H" + fmt.Sprintf(explicitWidth, 1, " ") + dsrcpr,
+		xtgettcap("RGB"), tparm(osc4, 1), osc10, osc11, getAppID, xtgettcap("Smulx"),
+		tertiaryAttributes, primaryAttributes,
+	}
+}
+
+// VerifUnderstoodReplies feeds reply bytes through the real input parser into handleSequence
+// (with a cursor position request outstanding, as during the explicit-width probe) and names
+// what Vaxis concluded from them, in order; anything decoded as user input is named "key".
+func VerifUnderstoodReplies(reply []byte) (names []string, probeCol int) {
+	vx := verifInputVaxis()
+	atomicStore(&vx.reqCursorPos, true)
+	done, res := make(chan bool), make(chan int, 1)
+	go func() {
+		select {
+		case pos := <-vx.chCursorPos:
+			res <- pos[1] - 1
+		case <-done:
+			res <- -1
+		}
+	}()
+	parser := ansi.NewParser(strings.NewReader(string(reply)))
+	for seq := range parser.Next() {
+		if _, ok := seq.(ansi.EOF); ok {
+			break
+		}
+		vx.handleSequence(seq)
+		for len(vx.queue) > 0 {
+			name := "other"
+			switch (<-vx.queue).(type) {
+			case capabilitySixel:
+				name = "sixel"
+			case synchronizedUpdates:
+				name = "synchronized-output"
+			case unicodeCoreCap:
+				name = "unicode-core"
+			case notifyColorChange:
+				name = "colour-scheme-updates"
+			case kittyKeyboard:
+				name = "kitty-keyboard"
+			case kittyGraphics:
+				name = "kitty-graphics"
+			case styledUnderlines:
+				name = "styled-underlines"
+			case truecolor:
+				name = "rgb"
+			case inBandResizeEvents:
+				name = "in-band-resize"
+			case textAreaPix:
+				name = "size-in-pixels"
+			case textAreaChar:
+				name = "size-in-cells"
+			case capabilityOsc4:
+				name = "osc4"
+			case capabilityOsc10:
+				name = "osc10"
+			case capabilityOsc11:
+				name = "osc11"
+			case terminalID:
+				name = "terminal-id"
+			case appID:
+				name = "app-id"
+			case primaryDeviceAttribute:
+				name = "da1"
+			case Key:
+				name = "key"
+			}
+			names = append(names, name)
+		}
+	}
+	close(done)
+	probeCol = <-res
+	return
+}
+
+// VerifParseSGR applies one SGR parameter list to a default style with the library's parseSGR.
+func VerifParseSGR(params [][]int) Style {
+	var st Style
+	parseSGR(params, &st)
+	return st
+}
